@@ -183,6 +183,7 @@ def Op.body : Op → StoreM Out
     let kv ← snapshot
     let names ← loopPrefix Keys.sColl (fun acc e => pure (e.1.drop Keys.sColl.length :: acc, Flow.cont)) []
       (seekFwd kv Keys.sColl)
+    noCommit        -- `ListCollections` opens a write transaction and never commits it
     pure (.names names.reverse)
   | .insert c docs fresh => do insertDocs c (assignIds docs fresh); pure .unit
   | .save c d fresh =>
@@ -207,7 +208,7 @@ def Op.body : Op → StoreM Out
     let m ← getMeta c
     let key := Keys.docKey c id
     match (← get key) with
-    | none => pure .unit
+    | none => do noCommit; pure .unit     -- nothing to delete: returns before Commit
     | some _ => do
       if !m.indexes.isEmpty then
         match (← get key) with
@@ -282,34 +283,41 @@ structure RunResult where
   fired : Bool
   trace : List Call
 
+/-- checks made before any transaction is opened (`ReplaceById`) -/
+def Op.pre : Op → Option Err
+  | .replaceById _ id d => if d.objectId ≠ id then some .idMismatch else none
+  | _ => none
+
+/-- `Save` routes to `Insert` or `ReplaceById`; `ReplaceById` is `UpdateById` with a constant updater -/
+def Op.route : Op → Op
+  | .save c d fresh =>
+    let needs := !d.has idField || (match d.get idField with | .str [] => true | _ => false)
+    if needs then .insert c [d] fresh else .updateById c d.objectId (.const d)
+  | .replaceById c id d => .updateById c id (.const d)
+  | o => o
+
+/-- `ExportCollection`: `HasCollection` then `FindAll`, two read transactions -/
+def execExport (c : Bytes) (kv : KVS) (φ : Faults) : Res Out × KVS × Bool × List Call :=
+  match withTx false (Op.body likeFn fnFam (.hasCollection c)) φ kv with
+  | (.err e, _, f1, t1) => (.err e, kv, f1, t1)
+  | (.ok (.bool true), _, f1, t1) =>
+    match withTx false (Op.body likeFn fnFam (.findAll { coll := c })) (fun _ => false) kv with
+    | (r2, _, f2, t2) => (r2, kv, f1 || f2, t1 ++ t2)
+  | (.ok _, _, f1, t1) => (.err .collNotExist, kv, f1, t1)
+
+/-- the transaction(s) of a routed operation: outcome, committed store, fault fired, trace -/
+def Op.exec (op : Op) (kv : KVS) (φ : Faults) : Res Out × KVS × Bool × List Call :=
+  match op with
+  | .exportDocs c => execExport likeFn fnFam c kv φ
+  | _ => withTx op.isWrite (Op.body likeFn fnFam op) φ kv
+
 /-- one public call on a handle -/
 def Op.run (op : Op) (σ : DBState) (φ : Faults) : RunResult :=
   if σ.closed then ⟨.err .closed, σ, false, []⟩ else
-  -- checks made before the transaction is opened
-  let pre : Option Err := match op with
-    | .replaceById _ id d => if d.objectId ≠ id then some .idMismatch else none
-    | _ => none
-  match pre with
+  match op.pre with
   | some e => ⟨.err e, σ, false, []⟩
   | none =>
-    let op' : Op := match op with
-      | .save c d fresh =>
-        let needs := !d.has idField || (match d.get idField with | .str [] => true | _ => false)
-        if needs then .insert c [d] fresh else .updateById c d.objectId (.const d)
-      | .replaceById c id d => .updateById c id (.const d)
-      | o => o
-    match op' with
-    | .exportDocs c =>
-      -- `HasCollection` then `FindAll`: two read transactions
-      let (r1, _, f1, t1) := withTx false (Op.body likeFn fnFam (.hasCollection c)) φ σ.kv
-      match r1 with
-      | .err e => ⟨.err e, σ, f1, t1⟩
-      | .ok (.bool true) =>
-        let (r2, _, f2, t2) := withTx false (Op.body likeFn fnFam (.findAll { coll := c })) (fun _ => false) σ.kv
-        ⟨r2, σ, f1 || f2, t1 ++ t2⟩
-      | .ok _ => ⟨.err .collNotExist, σ, f1, t1⟩
-    | _ =>
-      let (r, kv', fired, tr) := withTx op'.isWrite (Op.body likeFn fnFam op') φ σ.kv
-      ⟨r, { σ with kv := kv' }, fired, tr⟩
+    let r := (op.route).exec likeFn fnFam σ.kv φ
+    ⟨r.1, { σ with kv := r.2.1 }, r.2.2.1, r.2.2.2⟩
 
 end CV
